@@ -97,7 +97,7 @@ def run(chk, prog, tier):
                 chk.broken("XFER", key, loc_str(f), "the effect of %s on every option bit is determinate" % s,
                            "bits %#x undetermined" % x.T)
                 continue
-            stray = (~x.A | x.O) & ~allmask & FULL
+            stray = x.changed() & ~allmask & FULL
             chk.require(not stray, "XFER", key + "/stray", loc_str(f),
                         "%s(%s) touches only the four option bits" % (s, vname), "also changes bits %#x" % stray)
             xf.setdefault(s, {}).setdefault(vname, []).append((v, x))
